@@ -359,6 +359,8 @@ func (e *FuncEnc) loopInvariantFormulas(li *loopInfo, bind map[*ssa.Phi]string, 
 			if phi.Comment != "" {
 				env.vars[phi.Comment] = tv{s: bind[phi], t: phi.Type(), srt: e.D.SortOf(phi.Type())}
 			}
+			// role-based access for family hooks: the loop-carried variables by position
+			env.vars[fmt.Sprintf("#phi:%03d", len(env.vars))] = tv{s: bind[phi], t: phi.Type(), srt: e.D.SortOf(phi.Type())}
 		}
 		for _, cl := range e.Contract.LoopInv[ord] {
 			f, err := env.formula(cl)
